@@ -657,7 +657,24 @@ def r5p_mut_param(text):
     return header + '{' + lets + text[j + 1:], len(names)
 
 
+def r16_for_each_fill(text):
+    """`E.iter_mut().for_each(|v| *v = C)` -> `E.fill(C)` (both store C into every element of the slice)"""
+    n = 0
+    while True:
+        m = mask(text)
+        mo = re.search(r'\.iter_mut\(\)\.for_each\(\|\s*(' + _IDENT + r')\s*\|\s*\*\1\s*=\s*', m)
+        if not mo:
+            break
+        p = m.find('(', mo.start() + len('.iter_mut().for_each') - 1)
+        q = match_close(m, p)
+        val = text[mo.end():q].strip()
+        text = text[:mo.start()] + '.fill(' + val + ')' + text[q + 1:]
+        n += 1
+    return text, n
+
+
 RULES = {
+    'R16': r16_for_each_fill,
     'R5P': r5p_mut_param,
     'R4N': r4n_name_for_iter,
     'R6P': r6p_position,
